@@ -305,6 +305,15 @@ void mt_yield(void)
 	deliver_pending_signals();
 }
 
+/* the same without delivering signals (see v_lock) */
+static void mt_yield_nosig(void)
+{
+	states[me_] = iv_get_state();
+	if (++steps > step_limit)
+		mt_finish("STEPLIMIT");
+	switch_to(pick_next(0));
+}
+
 /* the current thread cannot continue until its state is changed by someone else */
 static void block_and_switch(void)
 {
@@ -427,7 +436,13 @@ static int v_lock(const void *m, const char *what)
 	int s = mu_slot(m);
 	char nb[64];
 
-	mt_yield();
+	/* an asynchronous signal can arrive at any instruction, also inside a critical section: half of the time a signal that is pending
+	 * for this thread is not delivered at the scheduling point before the lock is taken but right after (mutexes only: the library
+	 * takes its spinlock with signals blocked) */
+	if (what[0] == 'L' && (rnd() & 1))
+		mt_yield_nosig();
+	else
+		mt_yield();
 	while (mu_owner[s] != -1) {
 		if (mu_owner[s] == me_) {
 			mt_log("SELF-DEADLOCK %s\n", mu_name(m, nb));
@@ -439,6 +454,8 @@ static int v_lock(const void *m, const char *what)
 	}
 	mu_owner[s] = me_;
 	mt_log("%s %s\n", what, mu_name(m, nb));
+	if (what[0] == 'L')
+		deliver_pending_signals();
 	return 0;
 }
 
@@ -816,6 +833,12 @@ static int core_action(char *op, int guard, char *a1, char *a2)
 		iv_invalidate_now();
 	} else if (!strcmp(op, "yield")) {
 		mt_yield();
+	} else if (!strcmp(op, "appfd")) {
+		/* the application opens descriptors of its own (an idle pipe): they take the lowest free numbers, e.g. one the library has
+		 * just closed */
+		int p[2];
+		if (pipe(p) == 0)
+			mt_log("APPFD %d %d\n", p[0], p[1]);
 	} else if (!strcmp(op, "close0")) {
 		/* the program closes its standard input (a daemon): descriptor number 0 is handed out to whatever is created next */
 		close(0);
